@@ -852,6 +852,64 @@ func c10LargeKerning(r *run.Run) {
 		})
 }
 
+// c10Hinted: a subset changes which advance width is the most frequent one, and with it which glyphs store
+// their width in the charstring - in front of the stem hints.
+func c10Hinted(r *run.Run) {
+	stems := []int{0, 1, 23, 24, 25, 47, 48, 60}
+	lists := [][]glyph.ID{{0, 1}, {0, 1, 3, 4}, {0, 3, 4, 1}, {0, 1, 3, 4, 5}, {0, 2, 1}}
+	r.Explore(explore.Config{Name: "C10.subset-hinted"},
+		"simple and CID-keyed CFF fonts with the widths [500 500 500 600 600 700] whose glyph 1 has {0, 1, 23..25, 47, 48, 60} horizontal or vertical stem hint pairs, subset to 5 glyph lists (in most of them another width than that of glyph 1 becomes the most frequent one): written and read back, every glyph of the subset has the width, the stems and the outline of the original glyph",
+		func(c *explore.Ctx) {
+			kind := 1 + c.Choose(2, "outline kind")
+			ns := stems[c.Choose(len(stems), "stem pairs")]
+			vertical := c.Bool("vertical stems")
+			list := lists[c.Choose(len(lists), "glyph list")]
+			f, _ := FontFromChoices(gen.FontOpts{NoMeta: true, NoLayout: true}, kind, 2, 0, 0, 1)
+			o := *f.Outlines.(*cff.Outlines)
+			o.Glyphs = append([]*cff.Glyph{}, o.Glyphs...)
+			ws := []float64{500, 500, 500, 600, 600, 700}
+			for i := range o.Glyphs {
+				g := *o.Glyphs[i]
+				g.Width = ws[i%len(ws)]
+				if i == 1 {
+					g.HStem, g.VStem = nil, nil
+					for k := 0; k < ns; k++ {
+						if vertical {
+							g.VStem = append(g.VStem, float64(10*k), float64(10*k+4))
+						} else {
+							g.HStem = append(g.HStem, float64(10*k), float64(10*k+4))
+						}
+					}
+				}
+				o.Glyphs[i] = &g
+			}
+			f.Outlines = &o
+			desc := fmt.Sprintf("%s, %d stem pairs (vertical %v), list %v", gen.KindNames[kind], ns, vertical, list)
+			c.Sample(func() any { return desc })
+			c.Outcome(desc)
+			c.Nontrivial()
+			sub := f.Subset(list)
+			buf := &bytes.Buffer{}
+			if _, err := sub.Write(buf); err != nil {
+				c.Fail("C10.write", "hinted", "the subset cannot be written: %v; %s", err, desc)
+				return
+			}
+			back, err := sfnt.Read(bytes.NewReader(buf.Bytes()))
+			if err != nil || back.NumGlyphs() != len(list) {
+				c.Fail("C10.reread", "hinted", "the written subset cannot be read back with %d glyphs: %v; %s", len(list), err, desc)
+				return
+			}
+			bo := back.Outlines.(*cff.Outlines)
+			for i, og := range list {
+				want, got := o.Glyphs[og], bo.Glyphs[i]
+				if got.Width != want.Width || !cmp.Equal(got.HStem, want.HStem, cmpopts.EquateEmpty()) || !cmp.Equal(got.VStem, want.VStem, cmpopts.EquateEmpty()) || !reflect.DeepEqual(got.Cmds, want.Cmds) {
+					c.Fail("C10.reread", "hinted glyph", "glyph %d of the re-read subset (width %v, %d+%d stem values) is not the original glyph %d (width %v, %d+%d stem values); %s", i, got.Width, len(got.HStem), len(got.VStem), og, want.Width, len(want.HStem), len(want.VStem), desc)
+					return
+				}
+			}
+		})
+}
+
 // c10GlyfSizes: subsets of a TrueType font whose glyph data has a chosen total size around the limits of
 // the two "loca" formats (64 KiB: where the library changes format; 128 KiB: the most the short format can address).
 func c10GlyfSizes(r *run.Run) {
@@ -1179,6 +1237,7 @@ func init() {
 		r.Assume = []string{"only layout data the subsetter declares supported: GSUB 1.1 / 4.1, GPOS 2.1, no GDEF", "characters mapping to glyphs that were appended by the closure may or may not be mapped"}
 		c10SubsetSizes(r)
 		c10GlyfSizes(r)
+		c10Hinted(r)
 		c10LargeKerning(r)
 		c10OutlinesSubset(r)
 		c10ShortNames(r)
